@@ -143,6 +143,11 @@ def rosterKeys : List Member → List Bytes
 /-- the byte string fed to SHA-256 by `NewRoster` / `GetID` -/
 def rosterPre (ro : List Member) : Bytes := (rosterKeys ro).flatten
 
+/-- `Roster.Toml(suite)` then `RosterToml.Roster(suite)` (tree.go:1013-1040; `ServerIdentity.Toml` /
+`ServerIdentityToml.ServerIdentity`, network/struct.go:255-282): the TOML form of an identity is its address and its
+server key — the list that comes back has every member's server key and **no service keys**; the id travels as a field -/
+def tomlRound (ro : List Member) : List Member := ro.map fun m => { m with svcs := [] }
+
 /-- `Roster.Concat` (tree.go:835-845): the identities that are not in the roster yet — an identity
 is found by its id, which is a hash of its server key — appended in order; the result is a
 `NewRoster` of that list -/
@@ -460,6 +465,12 @@ def step (s : State) (toks : List String) : State × String :=
       let rid := rosterId realHash r
       ({ s with roster := r.toArray, rid := rid }, showUuid rid)
     | none => (s, "bad-op")
+  -- `toml`: the current roster through Roster.Toml / RosterToml.Roster (Ed25519 rosters): the id that travels, the id of
+  -- the list that comes back, the number of service keys that come back
+  | ["toml"] =>
+    if s.roster.isEmpty ∨ s.rkind != some .ed25519 then (s, "bad-op") else
+    let back := tomlRound s.roster.toList
+    (s, s!"id={showUuid s.rid} getid={showUuid (rosterId realHash back)} svc={(back.map (·.svcs.length)).sum}")
   -- `subset <position> <n>`: Roster.RandomSubset(List[position], n) — a random choice the model
   -- cannot name; the reply only says that the call is well-formed (the harness checks the result's id)
   | ["subset", p, n] =>
